@@ -20,7 +20,7 @@ ASSUMPTIONS = [
 ]
 TRUSTED = ["tools/props/C09.py case generator, RNG scripting layer and Coq literal printer", "Model/DecodeCorr.v check function"]
 
-HEADER = ("From Coq Require Import List QArith ZArith Bool.\nFrom LV Require Import Model.Domain Model.Decode Model.DecodeCorr.\n"
+HEADER = ("From Coq Require Import List QArith ZArith Bool.\nFrom LV Require Import Model.Domain Model.Decode Model.EndpointTail Model.DecodeCorr.\n"
           "Open Scope Q_scope.")
 
 
@@ -229,6 +229,62 @@ class Script:
     numpy.random.choice, numpy.random.shuffle = self.old
 
 
+class TailScript:
+  """numpy.random.{choice, randint, uniform} scripted for the multitask tail of the GP endpoint: logs the category each decode call
+  returned (inverse-cdf of a harness uniform over the p the code passes) and every column of the replacement draws, in call order."""
+
+  def __init__(self, rng):
+    self.rng, self.cats, self.cols = rng, [], []
+
+  def choice(self, a, size=None, replace=True, p=None):
+    if p is not None and size is None:   # decode: one category
+      cdf = numpy.cumsum(numpy.asarray(p, dtype=float))
+      idx = min(int(numpy.searchsorted(cdf / cdf[-1], self.rng.random(), side="right")), len(a) - 1)
+      self.cats.append(int(a[idx]))
+      return a[idx]
+    assert p is None and replace and size is not None
+    col = [self.rng.choice(list(a)) for _ in range(int(size))]   # one column of element draws (categorical / grid component)
+    self.cols.append([float(v) for v in col])
+    return numpy.array(col)
+
+  def randint(self, lo, hi, n):
+    col = [self.rng.randint(int(lo), int(hi) - 1) for _ in range(int(n))]
+    self.cols.append([float(v) for v in col])
+    return numpy.array(col)
+
+  def uniform(self, lo, hi, n):
+    col = [lo + (hi - lo) * self.rng.randint(0, 16) / 16 for _ in range(int(n))]   # dyadic: the raw task coordinate of a replacement
+    self.cols.append([float(v) for v in col])
+    return numpy.array(col)
+
+  def __enter__(self):
+    self.old = (numpy.random.choice, numpy.random.randint, numpy.random.uniform)
+    numpy.random.choice, numpy.random.randint, numpy.random.uniform = self.choice, self.randint, self.uniform
+    return self
+
+  def __exit__(self, *a):
+    numpy.random.choice, numpy.random.randint, numpy.random.uniform = self.old
+
+
+class LinearAF:
+  def __init__(self, coef):
+    self.coef = numpy.array(coef, dtype=float)
+
+  def evaluate_at_point_list(self, pts, **kw):
+    return numpy.dot(numpy.atleast_2d(pts), self.coef)
+
+
+def multitask_view(d, opts, hist, hist_costs):
+  """a GP suggestion view reduced to what its conversion step reads: the domain, the task options, the relaxed history rows with their task column"""
+  _, V, G = _lib()
+  view = G.GpNextPointsCategorical.__new__(G.GpNextPointsCategorical)
+  view.domain = d
+  view.task_options = numpy.array(opts, dtype=float)
+  view.task_cost_populated = view.task_options.size
+  view.one_hot_points_sampled_points = V.form_one_hot_points_with_tasks(d, numpy.array(hist, dtype=float), numpy.array(hist_costs, dtype=float))
+  return view
+
+
 # ------------------------------------------------------------------------------------------ implementation runner
 
 TEMPS = [None, None, 0, 1.0, 0.5, 0.25, 0.125, 0.001, -1.0]
@@ -244,6 +300,17 @@ def run_impl(kind, inp, rng=None):
     out = G.snap_continuous_tasks_to_discrete_options(numpy.array(inp["costs"], dtype=float), numpy.array(inp["options"], dtype=float))
     return dict(out=[float(v) for v in out])
   d = make_domain(inp["dom"])
+  if kind == "task_tail":
+    view = multitask_view(d, inp["opts"], inp["hist"], inp["hist_costs"])
+    hist_oh = numpy.asarray(view.one_hot_points_sampled_points, dtype=float).tolist()
+    with TailScript(rng) as s:
+      pts, costs = view.convert_one_hot_points_to_distinct_categorical_points(numpy.array(inp["xs"], dtype=float), LinearAF(inp["coef"]))
+    k = n_cats(inp["dom"])
+    nx, nh = len(inp["xs"]), len(inp["hist"])
+    assert len(s.cats) == k * (nx + nh), "unexpected number of category draws"
+    split = lambda flat, rows: [flat[i * k:(i + 1) * k] for i in range(rows)]
+    return dict(pts=numpy.asarray(pts, dtype=float).tolist(), costs=[float(v) for v in costs], hist_oh=hist_oh,
+                cats=split(s.cats[:k * nx], nx), hcats=split(s.cats[k * nx:], nh), cols=s.cols)
   if kind == "box":
     m = []
     for mp in d.one_hot_to_categorical_mapping:
@@ -326,7 +393,10 @@ def run_impl(kind, inp, rng=None):
 
 def gen_case(rng):
   kind = rng.choice(["box", "encode", "encode", "round", "round", "decode", "decode", "decode", "decode", "decode_ic", "decode_ic",
-                     "intnbrs", "feasnbrs", "snapfeas", "lsto", "lsback", "task", "nbrint", "nbrcat", "encode_err", "decode_err", "encode_task"])
+                     "intnbrs", "feasnbrs", "snapfeas", "lsto", "lsback", "task", "nbrint", "nbrcat", "encode_err", "decode_err", "encode_task",
+                     "task_tail", "task_tail"])
+  if kind == "task_tail":
+    return kind, gen_task_tail(rng)
   if kind == "task":
     opts = sorted(rng.sample([0.1, 0.125, 0.25, 0.3, 0.5, 0.75, 1.0], rng.randint(1, 4)))
     if rng.random() < 0.2:
@@ -408,6 +478,36 @@ def gen_case(rng):
     return "nbrcat", dict(dom=dom, xs=[gen_relaxed_point(rng, dom) for _ in range(rng.randint(1, 2))])
 
 
+def gen_task_tail(rng, real=False):
+  """A multitask request at the conversion step of the GP endpoint: proposals (relaxed rows with a task coordinate) that duplicate each other
+  and / or observed points at the same task, next to distinct ones; the task coordinate of a proposal is an option or a raw value between the
+  smallest and the largest option; the history holds points at several tasks.  Unconstrained domains (every replacement draw is scripted)."""
+  discrete = rng.random() < 0.5
+  kinds = ["int", "categorical", "quantized"] if discrete else ["double", "int", "categorical", "quantized"]
+  comps = [gen_component(rng, rng.choice(kinds)) for _ in range(rng.randint(1, 3))]
+  dom = dict(comps=comps, cons=[])
+  opts = sorted(rng.sample([0.125, 0.25, 0.5, 0.75, 1.0], rng.randint(2, 4)))
+  lo, hi = opts[0], opts[-1]
+  pool = [gen_valid_point(rng, dom) for _ in range(rng.randint(1, 3))]
+  hist = [list(rng.choice(pool)) if rng.random() < 0.7 else gen_valid_point(rng, dom) for _ in range(rng.randint(1, 5))]
+  hist_costs = [rng.choice(opts) for _ in hist]
+  style = rng.choice(["dup-history", "dup-each-other", "mixed", "mixed", "distinct"])
+  xs = []
+  for j in range(rng.randint(1, 4)):
+    raw = (rng.uniform(lo, hi) if real else lo + (hi - lo) * rng.randint(0, 16) / 16)
+    if style == "dup-history" or (style == "mixed" and rng.random() < 0.4):
+      i = rng.randrange(len(hist))
+      xs.append(encode_ref(dom, hist[i]) + [hist_costs[i]])
+    elif xs and (style == "dup-each-other" or (style == "mixed" and rng.random() < 0.4)):
+      xs.append(list(rng.choice(xs)))
+    elif style == "distinct" and rng.random() < 0.3 and not real:
+      xs.append(gen_relaxed_point(rng, dom) + [raw])
+    else:
+      xs.append(encode_ref(dom, rng.choice(pool) if rng.random() < 0.5 else gen_valid_point(rng, dom)) + [rng.choice([raw, raw, rng.choice(opts)])])
+  W = len(xs[0])
+  return dict(dom=dom, opts=opts, hist=hist, hist_costs=hist_costs, xs=xs, coef=[rng.choice([-2, -1, 0, 0, 1, 1, 3]) for _ in range(W)], style=style)
+
+
 def gen_ic_case(rng, kind):
   # integer-constrained domains
   need = rng.choice([("int", "int"), ("int", "int", "double"), ("int", "int", "int", "categorical"), ("int", "quantized"), ("int", "int", "categorical"),
@@ -473,6 +573,12 @@ def coq_case(kind, inp, out):
   if kind == "task":
     return f"CTask {row_lit(inp['costs'])} {row_lit(inp['options'])} {row_lit(out['out'])}"
   d = "(" + dom_lit(inp["dom"]) + ")"
+  if kind == "task_tail":
+    dorc = lambda cats: f"{{| o_rnds := []; o_perms := []; o_cats := {C.listlit([C.listlit(r, C.zlit) + '%Z' for r in cats])} |}}"
+    o = (f"{{| g_dec := {dorc(out['cats'])}; g_hdec := {dorc(out['hcats'])}; g_choice := []; "
+         f"g_q := {{| q_cols := {rows_lit(out['cols'])}; q_rows := []; q_dec := {dorc([])} |}} |}}")
+    return (f"CTaskTail {d} {row_lit(inp['opts'])} {row_lit(inp['coef'])} {rows_lit(inp['xs'])} {rows_lit(out['hist_oh'])} {o} "
+            f"{rows_lit(out['pts'])} {row_lit(out['costs'])}")
   if kind == "box":
     box = C.listlit([f"({C.qlit(a)}, {C.qlit(b)})" for a, b in out["box"]])
     m = C.listlit([f"({t}%nat, {i}%nat, {C.listlit([f'({a}%nat, {C.zlit(b)}%Z)' for a, b in items])})" for t, i, items in out["map"]])
@@ -516,6 +622,8 @@ def nontrivial(kind, inp, out):
     return True
   if kind == "task":
     return len(inp["options"]) >= 2
+  if kind == "task_tail":
+    return True
   if kind in ("decode", "snapfeas", "round"):
     return len(inp["dom"]["comps"]) >= 2
   return len(inp["dom"]["comps"]) >= 2
@@ -536,6 +644,8 @@ def correspondence(ctx):
       lab += ":int-constrained" if any(k["var_type"] == "int" for k in inp["dom"]["cons"]) else ""
       if len(out["out"]) < len(inp["xs"]):
         dist["decode:rows-dropped"] = dist.get("decode:rows-dropped", 0) + 1
+    if kind == "task_tail":
+      lab += ":replaced-rows" if out["cols"] else ":all-kept"
     if kind == "snapfeas" and len(out["out"]) < len(inp["xs"]):
       dist["snapfeas:rows-dropped"] = dist.get("snapfeas:rows-dropped", 0) + 1
     dist[lab] = dist.get(lab, 0) + 1
@@ -631,6 +741,43 @@ def oracle(kind, inp):
     dom = inp["dom"]
     d = make_domain(dom)
     comps = dom["comps"]
+    if kind == "tasktail":
+      # the conversion step of the multitask GP endpoint as the property states it: whatever route a suggestion took - kept as proposed, or
+      # drawn afresh because the proposal duplicated another proposal / an observed point at the same task - the task cost returned with it
+      # is one of the task options; a proposal that is kept is returned with an option nearest to its own continuous task value
+      opts, xs, hist, hc = inp["opts"], inp["xs"], inp["hist"], inp["hist_costs"]
+      view = multitask_view(d, opts, hist, hc)
+      af = LinearAF(inp["coef"])
+      numpy.random.seed(inp["seed"])
+      pts, costs = view.convert_one_hot_points_to_distinct_categorical_points(numpy.array(xs, dtype=float), af)
+      pts, costs = numpy.asarray(pts, dtype=float).tolist(), [float(v) for v in costs]
+      if len(costs) != len(pts) or len(pts) != len(xs):   # the domain with the task dimension is never discrete: every rejected proposal is replaced
+        return fail("task-tail:count", f"{len(xs)} proposals gave {len(pts)} points and {len(costs)} task costs", dict(points=pts, costs=costs))
+      for j, c in enumerate(costs):
+        if c not in [float(t) for t in opts]:
+          return fail("task-tail:cost-not-an-option", f"suggestion #{j} is returned with task cost {c!r}, not one of the task options {opts}",
+                      dict(points=pts, costs=costs), "every returned task cost is a task option")
+      dd = dict(comps=comps, cons=[])
+      for q in pts:
+        f = None if valid_for_oracle("roundtrip", dict(dom=dd, p=q)) else fail("task-tail:point-not-admissible", f"returned point {q} is not a configuration of the domain", pts)
+        if f:
+          return f
+      # Who is kept: the conversion (lattice neighbour search by the acquisition function, decode) never touches the task coordinate, a double.  When
+      # the task values of the proposals are pairwise, and from every observed task cost, more than three times the duplicate threshold apart in that
+      # coordinate alone (the library's documented metric: difference / sqrt(range of the task dimension), threshold 1e-2 * sqrt(#parameters + 1)),
+      # no proposal can be rejected: all are kept, in order, and each is returned with an option nearest to its own task value.
+      thr = 3 * 1e-2 * (len(comps) + 1) ** 0.5 * float(max(opts) - min(opts)) ** 0.5
+      tv = [float(x[-1]) for x in xs]
+      apart = all(abs(a - b) > thr for i, a in enumerate(tv) for b in tv[:i]) and all(abs(a - float(c)) > thr for a in tv for c in hc)
+      if apart:
+        for j, x in enumerate(xs):
+          best = min(abs(F(x[-1]) - F(t)) for t in opts)
+          if abs(F(x[-1]) - F(costs[j])) > best + ulp_tol(x[-1], *opts):
+            return fail("task-tail:kept-cost-not-nearest", f"proposal #{j} (nothing to reject: all task values far apart) has task value {x[-1]!r} and is returned "
+                        f"with cost {costs[j]!r}, not a nearest option of {opts}", dict(points=pts, costs=costs))
+      return None
+    if kind == "taskendpoint":
+      return task_endpoint_oracle(inp, fail)
     if kind == "roundtrip":
       p = inp["p"]
       x = d.map_categorical_point_to_one_hot(list(p))
@@ -794,6 +941,65 @@ def oracle(kind, inp):
   raise ValueError(kind)
 
 
+def decode_ref(dom, x):
+  """harness-side inverse of encode_ref on exact one-hot rows"""
+  q, pos = [], 0
+  for c in dom["comps"]:
+    if c["var_type"] == "categorical":
+      blk = list(x[pos:pos + len(c["elements"])])
+      q.append(c["elements"][blk.index(1.0)])
+      pos += len(blk)
+    else:
+      q.append(x[pos])
+      pos += 1
+  return q
+
+
+def task_endpoint_oracle(inp, fail):
+  """the whole multitask GP suggestion endpoint on a small discrete domain every configuration of which was observed at every task (or all but a
+  few): each proposal duplicates an observed point and is replaced; the returned task costs are task options, one per point, the points admissible"""
+  from libsigopt.aux.adapter_info_containers import DomainInfo, GPModelInfo, MetricsInfo, PointsContainer
+  from libsigopt.aux.constant import PARALLEL_CONSTANT_LIAR, TASK_SELECTION_STRATEGY_A_PRIORI
+  from libsigopt.compute.misc.constant import NONZERO_MEAN_CONSTANT_MEAN_TYPE
+  _, _, G = _lib()
+  comps, opts = inp["dom"]["comps"], inp["opts"]
+  elems = [list(range(int(c["elements"][0]), int(c["elements"][1]) + 1)) if c["var_type"] == "int" else list(c["elements"]) for c in comps]
+  configs = [list(q) for q in itertools.product(*elems)]
+  rs = numpy.random.RandomState(inp["seed"])
+  rows = [(q, t) for q in configs for t in opts]
+  rows = [r for i, r in enumerate(rows) if i not in set(inp.get("drop", []))]
+  xs = numpy.array([r[0] for r in rows], dtype=float)
+  ts = numpy.array([r[1] for r in rows], dtype=float)
+  values = rs.uniform(-0.1, 0.1, (len(xs), 1))
+  ls = [[1.0] * len(c["elements"]) if c["var_type"] == "categorical" else [1.0] for c in comps]
+  view_input = dict(
+    domain_info=DomainInfo(constraint_list=[], domain_components=[dict(c) for c in comps]),
+    model_info=GPModelInfo(hyperparameters=[dict(alpha=0.1, length_scales=ls, tikhonov=None, task_length=0.19)], max_simultaneous_af_points=5432,
+                           nonzero_mean_info=dict(mean_type=NONZERO_MEAN_CONSTANT_MEAN_TYPE, poly_indices=None),
+                           task_selection_strategy=TASK_SELECTION_STRATEGY_A_PRIORI),
+    num_to_sample=inp["n"], parallelism=PARALLEL_CONSTANT_LIAR,
+    points_sampled=PointsContainer(points=xs, values=values, value_vars=numpy.full_like(values, 1e-4), failures=numpy.zeros(len(xs), dtype=bool), task_costs=ts),
+    points_being_sampled=PointsContainer(points=numpy.empty((0, len(comps))), task_costs=numpy.empty(0)),
+    tag=dict(experiment_id=-1),
+    metrics_info=MetricsInfo(requires_pareto_frontier_optimization=False, observation_budget=100, user_specified_thresholds=numpy.full(1, numpy.nan),
+                             objectives=["maximize"], optimized_metrics_index=[0], constraint_metrics_index=[]),
+    task_options=numpy.array(opts, dtype=float))
+  numpy.random.seed(inp["seed"])
+  resp = G.GpNextPointsCategorical(view_input).call()
+  pts = numpy.asarray(resp["points_to_sample"], dtype=float).tolist()
+  costs = [float(t) for t in resp["task_costs"]]
+  if len(costs) != len(pts) or len(pts) != inp["n"]:
+    return fail("task-tail:count", f"{inp['n']} suggestions asked, {len(pts)} points and {len(costs)} task costs returned", dict(points=pts, costs=costs))
+  for j, c in enumerate(costs):
+    if c not in [float(t) for t in opts]:
+      return fail("task-tail:cost-not-an-option", f"endpoint: suggestion #{j} is returned with task cost {c!r}, not one of the task options {opts}",
+                  dict(points=pts, costs=costs), "every returned task cost is a task option")
+  for q in pts:
+    if not valid_for_oracle("roundtrip", dict(dom=dict(comps=comps, cons=[]), p=q)):
+      return fail("task-tail:point-not-admissible", f"endpoint: returned point {q} is not a configuration of the domain", pts)
+  return None
+
+
 def oh_positions(dom):
   pos, out = 0, []
   for c in dom["comps"]:
@@ -878,6 +1084,10 @@ def gen_search_case(rng):
     return gen_many_ints(rng)
   if rng.random() < 0.08:
     return gen_encode_case(rng)
+  if rng.random() < 0.06:
+    # multitask requests at the conversion step: proposals that duplicate each other / observed points at the same task, real-valued task coordinates
+    inp = gen_task_tail(rng, real=True)
+    return "tasktail", dict(dom=inp["dom"], opts=inp["opts"], hist=inp["hist"], hist_costs=inp["hist_costs"], xs=inp["xs"], coef=inp["coef"], seed=rng.randint(0, 2**31 - 1))
   if kind == "task":
     opts = sorted({round(rng.uniform(0.01, 1), rng.randint(1, 4)) for _ in range(rng.randint(1, 5))})
     return kind, dict(costs=[rng.choice([rng.random(), rng.choice(opts), (opts[0] + opts[-1]) / 2]) for _ in range(rng.randint(1, 6))], options=opts)
@@ -925,6 +1135,28 @@ def gen_search_case(rng):
   if not comps:
     comps.append(real_component(rng, "int"))
   return "nbr", dict(dom=dom, x=real_relaxed(rng, dom))
+
+
+def gen_task_endpoint(rng):
+  while True:
+    comps = []
+    for _ in range(rng.randint(1, 2)):
+      kd = rng.choice(["int", "categorical", "quantized"])
+      if kd == "int":
+        lo = rng.randint(-3, 3)
+        comps.append(dict(var_type="int", elements=[lo, lo + rng.randint(1, 2)]))
+      elif kd == "categorical":
+        comps.append(dict(var_type="categorical", elements=rng.sample([-7, 1, 2, 4, 9], rng.randint(2, 3))))
+      else:
+        comps.append(dict(var_type="quantized", elements=sorted(rng.sample([-2.5, -1, 0.5, 3, 8], rng.randint(2, 3)))))
+    total = 1
+    for c in comps:
+      total *= (c["elements"][1] - c["elements"][0] + 1) if c["var_type"] == "int" else len(c["elements"])
+    if total <= 9:
+      break
+  opts = sorted(rng.sample([0.1, 0.25, 0.3, 0.5, 1.0], rng.randint(2, 3)))
+  drop = rng.sample(range(total * len(opts)), rng.choice([0, 0, 1, 2])) if total * len(opts) > 6 else []
+  return "taskendpoint", dict(dom=dict(comps=comps, cons=[]), opts=opts, n=rng.randint(1, 3), drop=drop, seed=rng.randint(0, 2**31 - 1))
 
 
 def gen_many_ints(rng):
@@ -984,6 +1216,9 @@ def hint_to_search(h):
   out = []
   if kind == "task":
     out.append(("task", dict(costs=inp["costs"], options=inp["options"])))
+  elif kind == "task_tail":
+    for sd in range(3):
+      out.append(("tasktail", dict(dom=inp["dom"], opts=inp["opts"], hist=inp["hist"], hist_costs=inp["hist_costs"], xs=inp["xs"], coef=inp["coef"], seed=sd)))
   elif kind == "encode" and "dom" in inp:
     out.append(("roundtrip", dict(dom=inp["dom"], p=inp["p"], T=None, seed=1)))
     task = inp.get("task")
@@ -1048,6 +1283,12 @@ def search(ctx, hints, broken):
         fails.append(r)
   budget = ctx.n(1500, 25000) * (2 if broken else 1)
   rng = ctx.rng
+  for _ in range(ctx.n(3, 12)):   # the whole multitask endpoint on (almost) exhausted small discrete domains: every proposal is a duplicate
+    kind, inp = gen_task_endpoint(rng)
+    n += 1
+    r = oracle(kind, inp)
+    if r:
+      fails.append(r)
   for _ in range(budget):
     kind, inp = gen_search_case(rng)
     n += 1
@@ -1085,3 +1326,11 @@ LEVEL_TEXT += ("; the task-cost column of the views' encode entry point: appendi
                "(Props/C09_task.v; tied by exact correspondence through form_one_hot_points_with_tasks and form_augmented_domain on points handed over as lists of ints, integer-typed "
                "arrays and float arrays); the searcher states the same round trip on batches of points in every numeric form (discrete-only domains included) and re-evaluates "
                "disagreeing encode cases with their task cost")
+
+# --- gap round (seeded C09_m12): additions to the claimed level
+LEVEL_TEXT += ("; the task-cost clause on the multitask tail of the GP suggestion endpoint (_convert_one_hot_points_for_multitask): every returned cost is an option nearest to the raw "
+               "task coordinate of the row it is returned with, for kept proposals and for the rows drawn to replace rejected duplicates alike (Props/C09_task.v: "
+               "C09_task_tail_costs_snapped, C09_task_tail_rows_structure over Model.EndpointTail.gp_tail; tied by an exact correspondence through "
+               "convert_one_hot_points_to_distinct_categorical_points on multitask requests whose proposals duplicate each other or observed points at the same task, all draws "
+               "scripted); the searcher states it on the same entry point with real-valued task coordinates and on the whole multitask endpoint over (almost) exhausted discrete domains")
+TRUSTED = TRUSTED + ["Model/TaskTail.v decidable clause task_costs_okb (proved sound: C09_task_costs_okb_sound)"]
